@@ -111,6 +111,7 @@ type aggObs struct {
 
 type live struct {
 	part   string
+	layout int // whitespace layout of the next dispatched line (0: single spaces, 1: tabs, 2: leading blank + run of blanks)
 	t      *table.Table
 	ref    ref.Table
 	routes []liveRoute // parallel to ref.Routes
@@ -258,7 +259,14 @@ func (l *live) endTable() {
 // dispatch sends one metric through the real table and compares everything
 // observable with the reference outcome.
 func (l *live) dispatch(name string) {
+	// the whitespace layout of the received line must not matter (the forwarded line is normalised)
 	line := name + valTs
+	switch l.layout {
+	case 1:
+		line = strings.Replace(line, " ", "\t", -1)
+	case 2:
+		line = " " + strings.Replace(line, " ", "  ", 1)
+	}
 	want := l.ref.Dispatch(name)
 
 	in0, inv0, b0, u0 := cIn.Count(), cInvalid.Count(), cBlack.Count(), cUnr.Count()
@@ -582,6 +590,7 @@ func partB(maxDests int) (done bool) {
 				l.beginTable()
 				chosen := map[string]string{}
 				for pass := 0; pass < 2; pass++ {
+					l.layout = pass // second pass: the same metrics arrive tab-separated
 					for _, name := range names {
 						l.dispatch(name)
 						if typ != ref.TypeHashing {
@@ -667,7 +676,11 @@ func partC() (done bool) {
 						l.addReal(r1)
 						l.beginTable()
 						for _, name := range names {
+							l.layout = 0
 							l.dispatch(name)
+							l.layout = 2 // leading blank and a run of blanks
+							l.dispatch(name)
+							l.layout = 0
 						}
 						if n == 7 || n == total/2 || n == total-3 {
 							l.sample(fmt.Sprintf("table %d of %d in part c", n+1, total))
